@@ -29,6 +29,7 @@ type c18Prog struct {
 var c18Progs = []c18Prog{
 	{"find", "find all 'Hello, ' (at least 1 not whitespace) = name", false, false},
 	{"replace", "replace all (at least 1 digit) = n with '<' n '>'", true, false},
+	{"two-statements", "find all 'Hello'\nfind all at least 1 digit", false, false},
 	{"failing", "find all 'unterminated", false, true},
 }
 
@@ -90,7 +91,7 @@ func stripDir(v any, dir string) any {
 func C18(r *drv.Run) {
 	r.BuildWorker()
 	r.BuildCLI()
-	r.Rule = "the built vore binary in scratch directories over the cross product {-com, -src} x 3 file sets (one file, several by glob, none matching) x {none, -json, -formatted-json} x {-json-file} x {-formatted-json-file} x {default, NEW, NOTHING, OVERWRITE} x {-no-output} x {find, replace, failing program} (thorough: all 1 728; quick: a seed-selected 300) plus 14 invalid invocations. Oracle: exit status; stdout under -json/-formatted-json is exactly one JSON document equal (after decoding) to the library's result for the same program and files, computed by a worker through RunFiles; the named JSON files likewise; replace mode honoured with NEW as default and outputs equal to the splice (directory snapshot before/after); invalid invocations, unknown modes and compile errors exit non-zero with a message and an empty snapshot diff. Non-trivial = invocation with >= 1 match whose JSON/stdout/file effects were all verified; distinct by configuration."
+	r.Rule = "the built vore binary in scratch directories over the cross product {-com, -src} x 3 file sets (one file, several by glob, none matching) x {none, -json, -formatted-json} x {-json-file} x {-formatted-json-file} x {default, NEW, NOTHING, OVERWRITE} x {-no-output} x {find, replace, two statements, failing program} (thorough: all 2 304; quick: a seed-selected 300) plus 14 invalid invocations. Oracle: exit status; stdout under -json/-formatted-json is exactly one JSON document equal (after decoding) to the library's result for the same program and files, computed by a worker through RunFiles; the named JSON files likewise; replace mode honoured with NEW as default and outputs equal to the splice (directory snapshot before/after); invalid invocations, unknown modes and compile errors exit non-zero with a message and an empty snapshot diff. Non-trivial = invocation with >= 1 match whose JSON/stdout/file effects were all verified; distinct by configuration."
 	r.Assumptions = []string{
 		"with -no-output only exit status and file effects of the replace mode are demanded (the documentation does not say whether JSON files are still written)",
 		"zero matches / no files: exit 0 and no JSON demanded (the property's 'when there is at least one match')",
